@@ -163,6 +163,7 @@ func takeCPUs(
 				return len(freeCPUs[i]) < len(freeCPUs[j])
 			})
 			cpusPerCore := acc.topology.CPUsPerCore()
+		takeCores:
 			for _, cpus := range freeCPUs {
 				for i := 0; i < len(cpus); i += cpusPerCore {
 					acc.take(cpus[i : i+cpusPerCore]...)
@@ -170,7 +171,8 @@ func takeCPUs(
 						return acc.result, nil
 					}
 					if !acc.needs(cpusPerCore) {
-						break
+						// less than a full core is still needed: no further socket may give a full core either
+						break takeCores
 					}
 				}
 			}
